@@ -53,7 +53,7 @@ def checksum(number):
 def validate(number):
     """Check if the number is a valid banknote serial number."""
     number = compact(number)
-    if not number[:2].isalnum() or not isdigits(number[2:]):
+    if not number[:2].isalnum() or not isdigits(number[2:]) or not number.isascii():
         raise InvalidFormat()
     if len(number) != 12:
         raise InvalidLength()
